@@ -60,7 +60,11 @@ const nVariants = 3 * 5 * 4
 func variantAt(k int) variant { return variant{Ring: k % 3, Ids: (k / 3) % 5, Mark: (k / 15) % 4} }
 
 func (v variant) String() string {
-	return fmt.Sprintf("ring=%d,g1=%d,g2=%d,marks=%d", v.Ring, idTables[v.Ids][0], idTables[v.Ids][1], v.Mark)
+	order := "cold-start"
+	if v.Ring != 0 {
+		order = "reload(snapshot-after-userspace)"
+	}
+	return fmt.Sprintf("ring=%d,order=%s,g1=%d,g2=%d,marks=%d", v.Ring, order, idTables[v.Ids][0], idTables[v.Ids][1], v.Mark)
 }
 
 // mix64 is the SplitMix64 finaliser: a fixed bijection of uint64 used to ASSIGN one variant to each program index
@@ -287,7 +291,9 @@ func (c *checker) compile(base *vroute.Program, va variant) (*compiled, error) {
 	}
 	ids := idTables[va.Ids]
 	// only the alias normaliser (needed for dip/dport/domain-key spellings); the other optimizers are C04's subject
-	cp.v, err = control.VerifC02Compile(sections, groupNames, ids[:], []routing.RulesOptimizer{&routing.AliasOptimizer{}})
+	// ring state 0 is a cold start (the kernel side is committed before BuildUserspace); a load that follows earlier
+	// loads is a reload: the kernel side is built from the KernspaceSnapshot AFTER BuildUserspace has run
+	cp.v, err = control.VerifC02Compile(sections, groupNames, ids[:], []routing.RulesOptimizer{&routing.AliasOptimizer{}}, va.Ring != 0)
 	if err != nil {
 		return cp, err
 	}
@@ -1095,7 +1101,7 @@ func main() {
 		c.runSpace(fromV(vroute.Tier2(3, false, vroute.Tier2OutboundsSmall)), vroute.PacketOpts{Compact: true}, false, false, false)
 		rule += ", under all 60 variants; all programs of exactly 2 rules (realisation per rule, 5 outbounds, full packet product); all programs of exactly 3 rules over 3 outbounds {g1, must_g2, must_rules} with the realisation chosen per program (compact packet product; UDP only where the program mentions l4proto)"
 	}
-	rule += fmt.Sprintf(". variants (%d) = LPM ring state {first load, after one load of the same program, after as many loads (one 1-set configuration, then the same program repeatedly, each through the real reserveLpmRingSlots) as make this load's allocation end at or wrap past slot 1023} x ids(g1,g2) in %v x marks {as written; rules 0xffffffff + fallback 1; rules 1 + fallback 0xffffffff; rule j in {0,1,0xffffffff}[j%%3] + fallback 0x80000000}. (a) runs the complete product; in (b),(c) program i of a space runs under variant SplitMix64(space,i) mod %d (a fixed assignment, identical in every run; per-variant program counts, by effective variant, are in programs_per_variant)", nVariants, idTables, nVariants)
+	rule += fmt.Sprintf(". variants (%d) = LPM ring state {first load = cold start: rule bytes and prefix sets taken from the builder before BuildUserspace; the two reload states take them from builder.KernspaceSnapshot() AFTER BuildUserspace (the staged-reload / rollback order): after one load of the same program, after as many loads (one 1-set configuration, then the same program repeatedly, each through the real reserveLpmRingSlots) as make this load's allocation end at or wrap past slot 1023} x ids(g1,g2) in %v x marks {as written; rules 0xffffffff + fallback 1; rules 1 + fallback 0xffffffff; rule j in {0,1,0xffffffff}[j%%3] + fallback 0x80000000}. (a) runs the complete product; in (b),(c) program i of a space runs under variant SplitMix64(space,i) mod %d (a fixed assignment, identical in every run; per-variant program counts, by effective variant, are in programs_per_variant)", nVariants, idTables, nVariants)
 	rule += ". packets: vroute.PacketsFor = per program the full product of the boundary values of its own constants (prefix first/last/first-1/last+1 in 128-bit space, both families, IPv4 also as IPv4-mapped Go addresses in (a),(b) and tier-2 1-rule; port range ends and +-1 plus destination port 53; no/matching/sub-/glued/upper-case+trailing-dot/foreign domain; no/listed(16 bytes)/+-1 byte/foreign pname; zero/listed/listed^1/foreign MAC; dscp listed +-1), every packet as TCP and as UDP, in LAN flavour (is_wan=0, no process name: the packets without pname) and WAN flavour (is_wan=1, process name as in the packet incl. unknown, MAC as in the packet incl. zero). A case = (program, variant, packet, flavour): the real route() result compared with ControlPlane.Route and with the vroute reference (evaluations). An IPv4 packet given to Go as plain and as v4-mapped address is two cases but one kernel argument vector (kernel_route_calls counts distinct vectors per program and domain). Programs are pairwise distinct: spaces enumerated under several variants are de-duplicated by (text after mark rewriting, ring state if the program has LPM sets, id table if it names g1/g2). distinct_nontrivial = distinct kernel argument vectors (per program variant) whose decision is taken by a rule or passes a holding must_rules, i.e. is not the plain fallback"
 	r.Rule(rule)
 	c.stopKdrvs()
